@@ -135,11 +135,25 @@ def apply_edit(net, table, index, col, val):
     return True
 
 
-def realise(program, overlay):
+def realise(program, overlay, fluid_overlay=None):
     net = build(program)
     for (table, index, col, val) in overlay:
         apply_edit(net, table, index, col, val)
+    for prop, val in sorted((fluid_overlay or {}).items()):
+        apply_fluid_edit(net, prop, val, {})
     return net
+
+
+def apply_fluid_edit(net, prop, val, originals):
+    """In-place change of one property of the net's Fluid object (val None = put the original property back).
+    `originals` keeps the property objects that were replaced (per net object)."""
+    if val is None:
+        if prop in originals:
+            net.fluid.add_property(prop, originals.pop(prop), overwrite=True, warn_on_duplicates=False)
+        return
+    if prop not in originals:
+        originals[prop] = net.fluid.all_properties[prop]
+    pp.create_constant_property(net, prop, val, overwrite=True, warn_on_duplicates=False)
 
 
 def result_tables(net):
